@@ -235,13 +235,17 @@ func streamC03(c *Ctx) {
 					default:
 						q = h.WriteQuery("b")
 					}
-					switch g.pick(5) {
+					switch g.pick(6) {
 					case 0:
 						lines = append(lines, opLine("delete", J{"q": q}))
 					case 1:
 						lines = append(lines, opLine("update", J{"q": q, "upd": J{"setAll": []interface{}{[]interface{}{hx("x"), encValue(int64(g.pick(10)))}}}, "viaUpdate": 1}))
 					case 2:
 						lines = append(lines, opLine("update", J{"q": q, "upd": J{"copy": []interface{}{hx("y"), hx("x")}}}))
+					case 3:
+						// looks unchanged but is not: nil on a missing field, a nested nil, the same number in another type
+						alts := []interface{}{[]interface{}{hx("w"), nil}, []interface{}{hx("n.zz"), nil}, []interface{}{hx("x"), encValue(float64(g.pick(10)))}, []interface{}{hx("x"), encValue(uint64(g.pick(10)))}}
+						lines = append(lines, opLine("update", J{"q": q, "upd": J{"setAll": []interface{}{alts[g.pick(len(alts))]}}, "viaUpdate": 1}))
 					default:
 						lines = append(lines, opLine("update", J{"q": q, "upd": h.Upd()}))
 					}
@@ -295,8 +299,9 @@ func streamC08(c *Ctx) {
 			}
 			lines = append(lines, opLine("insert", J{"coll": hx("s"), "docs": docs}))
 			for _, f := range []string{"x", "y", "n.a"} {
-				if g.pick(3) == 0 {
+				if g.pick(2) == 0 {
 					lines = append(lines, opLine("createIndex", J{"coll": hx("s"), "field": hx(f)}))
+					h.Focus = append(h.Focus, f)
 				}
 			}
 			for i := 0; i < 25; i++ {
@@ -305,7 +310,7 @@ func streamC08(c *Ctx) {
 					q["crit"] = h.Crit(g.pick(3))
 				}
 				dirs := []int{1, -1, 0, 5, -3}
-				fs := []string{"x", "y", "n.a", "xy", "_id", "z"}
+				fs := []string{"x", "y", "n.a", "xy", "_id", "z", "x", "y"}
 				switch g.pick(8) {
 				case 0:
 					q["sortDefault"] = true
